@@ -86,6 +86,7 @@ method, because no additional init parameters are needed.
 
 
 from pywbem._nocasedict import NocaseDict
+from pywbem._vendor.nocaselist import NocaseList
 
 from pywbem import CIMInstanceName, CIMInstance, CIMError, CIMClass, \
     CIM_ERR_INVALID_PARAMETER, CIM_ERR_ALREADY_EXISTS, CIM_ERR_INVALID_CLASS, \
@@ -565,7 +566,11 @@ class InstanceWriteProvider(BaseProvider):
                                                  target_namespace)
         assert self.is_association(creation_class)
 
-        ref_namespaces = set()
+        # Namespace names are case insensitive (and may be specified with
+        # leading or trailing slashes), so each namespace must be counted
+        # only once, whatever its spelling.
+        ref_namespaces = NocaseList()
+        target_namespace = target_namespace.strip('/')
         for inst_prop in cim_object.properties.values():
             if inst_prop.type == 'reference':
                 refprop_namespace = inst_prop.value.namespace
@@ -576,8 +581,11 @@ class InstanceWriteProvider(BaseProvider):
                 # Add to list if namespace exists and not same as
                 # target_namespace
                 if refprop_namespace:
-                    if refprop_namespace != target_namespace:
-                        ref_namespaces.add(inst_prop.value.namespace)
+                    refprop_namespace = refprop_namespace.strip('/')
+                    if refprop_namespace.lower() != \
+                            target_namespace.lower() and \
+                            refprop_namespace not in ref_namespaces:
+                        ref_namespaces.append(refprop_namespace)
 
         return list(ref_namespaces)
 
